@@ -1159,3 +1159,52 @@ func capturedParam(fv *ssa.FreeVar) *ssa.Parameter {
 	}
 	return nil
 }
+
+// stableFieldKey names a struct field for obligation keys in a way that
+// survives renaming unexported identifiers: an exported field by its name, an
+// unexported one by its type (plus its ordinal among the fields of that type).
+// tname is "pkg.Type" as printed by typeStr.
+func (c *Ctx) stableFieldKey(tname, fname string) string {
+	i := strings.LastIndex(tname, ".")
+	if i < 0 {
+		return tname + "." + fname
+	}
+	rel, tn := tname[:i], tname[i+1:]
+	for path, p := range c.ByPath {
+		if !strings.HasPrefix(path, modPath) || !(strings.HasSuffix(path, "/"+rel) || path == modPath+"/"+rel) {
+			continue
+		}
+		obj := p.Types.Scope().Lookup(tn)
+		if obj == nil {
+			continue
+		}
+		st, ok := obj.Type().Underlying().(*types.Struct)
+		if !ok {
+			continue
+		}
+		for k := 0; k < st.NumFields(); k++ {
+			f := st.Field(k)
+			if fieldName(obj.Type(), k) != fname && f.Name() != fname {
+				continue
+			}
+			if f.Exported() {
+				return tname + "." + f.Name()
+			}
+			ord, total := 0, 0
+			for j := 0; j < st.NumFields(); j++ {
+				if types.Identical(st.Field(j).Type(), f.Type()) && !st.Field(j).Exported() {
+					total++
+					if j < k {
+						ord++
+					}
+				}
+			}
+			s := tname + ".(" + typeStr(f.Type()) + ")"
+			if total > 1 {
+				s += fmt.Sprintf("#%d", ord+1)
+			}
+			return s
+		}
+	}
+	return tname + "." + fname
+}
